@@ -605,10 +605,8 @@ func clientOracle(line string) string {
 		switch {
 		case ak != consN || akB != consB:
 			return fmt.Sprintf("[key=metric-client-acknowledged] acknowledged %d chunks / %d bytes, the chunks reported delivered are %d / %d bytes", ak, akB, consN, consB)
-		case fw > sendN || fwB > sendB:
-			return fmt.Sprintf("[key=metric-client-forwarded] forwarded %d chunks / %d bytes, completely transmitted were %d / %d bytes", fw, fwB, sendN, sendB)
-		case fw < ak || fwB < akB:
-			return fmt.Sprintf("[key=metric-client-forwarded] forwarded %d chunks / %d bytes is less than acknowledged %d / %d bytes", fw, fwB, ak, akB)
+		case fw != sendN || fwB != sendB:
+			return fmt.Sprintf("[key=metric-client-forwarded] forwarded %d chunks / %d bytes, the upstream received %d / %d bytes completely", fw, fwB, sendN, sendB)
 		}
 	}
 	resolved := map[int]string{}
